@@ -21,12 +21,48 @@ from .exprs import show
 DEC = "stun_agent::StunPacketDecoder"
 
 
+DATA = "top:data"
+DATA_LEN = ("slice::len", DATA)
+
+
+def view(x):
+    """(base, start, end) trees when x denotes base[start..end], following nested indexing (`&data[r..][..m]`) of the input
+    slice; for any other base only one level (the base itself is the root); end None = unknown extent"""
+    while isinstance(x, tuple) and len(x) == 2 and isinstance(x[1], str) and x[1] in (".*", ".*.*"):
+        x = x[0]
+    if x == DATA:
+        return (DATA, 0, DATA_LEN)
+    if isinstance(x, tuple) and len(x) == 3 and isinstance(x[0], str) and (re.search(r"(^|::)index(_mut)?$", x[0]) or x[0] == "whole"):
+        v = view(x[1])
+        if v is None or v[0] != DATA:
+            v = (x[1], 0, None)
+        base, st, en = v
+        r = x[2]
+        if not isinstance(r, tuple):
+            return None
+        if r[0] == "Range":
+            return (base, ("op:Add", st, r[1]), ("op:Add", st, r[2]))
+        if r[0] == "RangeTo":
+            return (base, st, ("op:Add", st, r[1]))
+        if r[0] == "RangeInclusive::new" and len(r) >= 3:
+            return (base, ("op:Add", st, r[1]), ("op:Add", ("op:Add", st, r[2]), 1))
+        if r[0] == "RangeFrom" and en is not None:
+            return (base, ("op:Add", st, r[1]), en)
+        if r[0] == "RangeFull" and en is not None:
+            return (base, st, en)
+    return None
+
+
 def lin(t):
     """linear form {var: coeff, 1: const} of an expression tree built from op:Add / op:Sub / constants"""
     if isinstance(t, bool):
         return {1: int(t)}
     if isinstance(t, int):
         return {1: t}
+    if isinstance(t, tuple) and len(t) == 2 and t[0] == "slice::len" and t[1] != DATA:
+        v = view(t[1])
+        if v is not None and v[0] == DATA and v[2] is not None:
+            return lin(("op:Sub", v[2], v[1]))          # the length of a sub-slice of the input
     if isinstance(t, tuple) and t and t[0] in ("op:Add", "op:Sub") and len(t) == 3:
         a, b = lin(t[1]), lin(t[2])
         if a is None or b is None:
@@ -57,7 +93,7 @@ def leaf_name(k):
         return "L"
     if k == repr("top:dec.current_size"):
         return "c"
-    if k == repr("top:dec.expected_size.0"):
+    if k == repr("top:dec.expected_size.some"):
         return "E"
     return k
 
@@ -103,12 +139,19 @@ GUARDS = {
 }
 
 
-def rng(t):
-    """(start, end) trees of a Range / RangeTo node"""
+def rng(t, base=None):
+    """(start, end) trees of a range node; open ends refer to the length of `base` (the slice being indexed)"""
+    ln = ("slice::len", base) if base == "top:data" else None
     if isinstance(t, tuple) and t[0] == "Range":
         return t[1], t[2]
     if isinstance(t, tuple) and t[0] == "RangeTo":
         return 0, t[1]
+    if isinstance(t, tuple) and t[0] == "RangeFrom" and ln is not None:
+        return t[1], ln
+    if isinstance(t, tuple) and t[0] == "RangeFull" and ln is not None:
+        return 0, ln
+    if isinstance(t, tuple) and t[0] == "RangeInclusive::new" and len(t) >= 3:
+        return t[1], ("op:Add", t[2], 1)
     return None
 
 
@@ -339,8 +382,23 @@ def r16_4_invariant(ctx, prog, rule="R16.4"):
                 for pe in st["place"]["p"]:
                     if pe["k"] == "field" and pe.get("adt") == DEC:
                         writers.add(b.path)
-    okb = builders <= {DEC + "::new"} and writers <= {DEC + "::decode"}
+    # helpers a refactoring split off decode (new, not public, reached only from decode) are part of decode: the paths
+    # replayed above run through them (E2 inlines functions that are not in anchors/known_functions.json)
+    from ..absint import with_new_helpers
+    parts = {b2.path for b2 in with_new_helpers(prog, prog.body(DEC + "::decode")) if not b2.is_public}
+    parts = {p_ for p_ in parts if _only_called_from(prog, p_, parts | {DEC + "::decode"})} | {DEC + "::decode"}
+    okb = builders <= {DEC + "::new"} and writers <= parts
     ctx.ob(rule, "who-builds-and-writes", okb and bool(builders), "decoders are built in %s; fields are written in %s" % (sorted(builders), sorted(writers)))
+
+
+def _only_called_from(prog, path, allowed):
+    for b in prog.bodies.values():
+        if b.path in allowed:
+            continue
+        for cs in b.calls():
+            if any(cb.path == path for cb in prog.callees(cs)):
+                return False
+    return True
 
 
 def _rename_new(t):
@@ -394,14 +452,13 @@ def check(ctx, env):
         used = 0               # bytes of data consumed so far
         total = 0
         for i, (d, s) in enumerate(copies):
-            # an operand is an index node (index fn, base, range) or a whole slice (range 0..len)
-            if s == "top:data":
-                s = ("whole", "top:data", ("Range", 0, ("slice::len", "top:data")))
-            dr = rng(d[2]) if isinstance(d, tuple) and len(d) == 3 else None
-            sr = rng(s[2]) if isinstance(s, tuple) and len(s) == 3 else None
-            if dr is None or sr is None or "buffer" not in repr(d[1]) and "havoc:index_mut" not in repr(d[1]) or "top:data" not in repr(s[1]):
+            # an operand is an index node (index fn, base, range), possibly nested, or a whole slice (range 0..len)
+            dv, sv = view(d), view(s)
+            if dv is None or sv is None or dv[2] is None or sv[2] is None or sv[0] != DATA or \
+                    ("buffer" not in repr(dv[0]) and "havoc:index_mut" not in repr(dv[0])):
                 probs.append("copy %d has unexpected operands %s <- %s" % (i, show(d)[:80], show(s)[:80]))
                 continue
+            dr, sr = (dv[1], dv[2]), (sv[1], sv[2])
             dlen = ("op:Sub", dr[1], dr[0])
             slen = ("op:Sub", sr[1], sr[0])
             if not eq(dlen, slen):
@@ -427,7 +484,7 @@ def check(ctx, env):
                     probs.append("consumed %s != bytes copied %s" % (show(consumed)[:80], show(total)[:80]))
                 if not eq(size, fill):
                     probs.append("packet size %s != fill level %s" % (show(size)[:80], show(fill)[:80]))
-                if known == "Some" and not eq(size, "top:dec.expected_size.0"):
+                if known == "Some" and not eq(size, "top:dec.expected_size.some"):
                     probs.append("packet size %s != expected size" % show(size)[:80])
                 if known == "None" and "msg_length" not in repr(size):
                     probs.append("packet size %s is not header length + 20" % show(size)[:80])
@@ -442,7 +499,7 @@ def check(ctx, env):
                     probs.append("current_size' = %s != fill level %s" % (show(cur)[:80], show(fill)[:80]))
                 if L is not None and not eq(total, L):
                     probs.append("not all of data was copied: copied %s of %s" % (show(total)[:80], show(L)[:40]))
-                if known == "Some" and exp != ("Option::Some", "top:dec.expected_size.0"):
+                if known == "Some" and exp != ("Option::Some", "top:dec.expected_size.some"):
                     probs.append("expected_size changed to %s" % show(exp)[:80])
                 if isinstance(exp, tuple) and exp[0] == "Option::Some":
                     if not (isinstance(missing, tuple) and missing[0] == "Option::Some" and eq(missing[1], ("op:Sub", exp[1], cur))):
